@@ -94,4 +94,14 @@ Section AMapLemmas.
         * apply N.eqb_eq in E. subst. rewrite IH, P. reflexivity.
         * apply IH.
   Qed.
+  Lemma put_put : forall m k a b, put k a (put k b m) = put k a m.
+  Proof.
+    induction m as [|[k' a'] m IH]; intros k a b; simpl.
+    - now rewrite N.ltb_irrefl, N.eqb_refl.
+    - destruct (k <? k') eqn:L; simpl.
+      + now rewrite N.ltb_irrefl, N.eqb_refl.
+      + destruct (k =? k') eqn:E; simpl.
+        * now rewrite N.ltb_irrefl, N.eqb_refl.
+        * now rewrite L, E, IH.
+  Qed.
 End AMapLemmas.
